@@ -589,6 +589,8 @@ def base_pel_specs():
         'UDj': ud_json, 'UDt': ud_text, 'UDh': ud_hex,
         # declared built-in JSON but not UTF-8: shown as a hex dump of the payload
         'UDx': {'t': 'UD', 'comp': 0x2000, 'sub': 1, 'ver': 1, 'payload': b'{"a": "caf\xe9"}\0\0'.hex()},
+        # declared built-in JSON with numbers no JSON document can hold once loaded as floats
+        'UDn': {'t': 'UD', 'comp': 0x2000, 'sub': 1, 'ver': 1, 'payload': b'{"v": 1e999, "w": [1e308, -1e999]}'.hex()},
         'ED': {'t': 'ED', 'creator': 'B', 'comp': 0x0100, 'payload': bytes(range(40, 60)).hex()},
         'DH': {'t': 'DH', 'payload': bytes(range(16)).hex()},
         'ZZ': {'t': 'ZZ', 'payload': '00112233'},
